@@ -415,6 +415,133 @@ pub async fn live_streams_vs_reaper(rep: &mut Report, n_streams: usize, min_idle
     w.client.stop_session_pool_cleanup().await;
 }
 
+
+/// C12, client level, through the front-ends: a request whose one direction has ended stays a live stream
+/// (the reply / the upload is still running) far beyond idle_timeout; housekeeping must not take its session.
+/// `front`: 1 = SOCKS5, 2 = HTTP CONNECT. `who_ends_first`: 0 = the application half-closes and the target then
+/// replies slowly, 1 = the target half-closes and the application then uploads slowly.
+pub async fn half_closed_stream_vs_reaper(rep: &mut Report, min_idle: usize, front: u8, who_ends_first: u8) {
+    let pool = SessionPoolConfig { check_interval: Duration::from_millis(150), idle_timeout: Duration::from_millis(300), min_idle_sessions: min_idle };
+    let Some(w) = build_world(pool).await else {
+        rep.inconclusive("cannot build world");
+        return;
+    };
+    let Some((http, _hh)) = netkit::start_http(w.client.clone()).await else {
+        rep.inconclusive("cannot start the HTTP front-end");
+        return;
+    };
+    // earlier requests, two of them at the same time, so that older idle sessions exist and fill min_idle
+    let _ = tokio::join!(socks_request(&w, 9100), socks_request(&w, 9101));
+    // a target of its own: slow on purpose
+    let Some(mut t) = Target::bind_v4(0).await else {
+        rep.inconclusive("cannot bind target");
+        return;
+    };
+    let port = t.port;
+    const PIECES: usize = 8;
+    const PIECE: usize = 100;
+    const GAP_MS: u64 = 200; // 8 x 200 ms = 1.6 s >> idle_timeout + check_interval
+    let piece = |j: usize| -> Vec<u8> { (0..PIECE).map(|i| b'a' + ((i + j) % 26) as u8).collect() };
+    let target_got = Arc::new(std::sync::Mutex::new(Vec::<u8>::new()));
+    let tg = target_got.clone();
+    let target_task = tokio::spawn(async move {
+        let Some(a) = t.next(Duration::from_secs(20)).await else { return };
+        let mut s = a.stream;
+        if who_ends_first == 0 {
+            // read the request up to the application's end of stream, then reply slowly, then close
+            let mut req = Vec::new();
+            let _ = tokio::time::timeout(Duration::from_secs(10), s.read_to_end(&mut req)).await;
+            tg.lock().unwrap().extend_from_slice(&req);
+            for j in 0..PIECES {
+                if s.write_all(&piece(j)).await.is_err() {
+                    return;
+                }
+                tokio::time::sleep(Duration::from_millis(GAP_MS)).await;
+            }
+            let _ = s.shutdown().await;
+        } else {
+            // greet, end our direction, then read the slow upload to its end
+            let _ = s.write_all(b"HELLO").await;
+            let _ = s.shutdown().await;
+            let mut up = Vec::new();
+            let _ = tokio::time::timeout(Duration::from_secs(15), s.read_to_end(&mut up)).await;
+            tg.lock().unwrap().extend_from_slice(&up);
+        }
+    });
+    let ip = netkit::uniq_ip(57, 1 + min_idle as u32 * 4 + front as u32 * 2 + who_ends_first as u32);
+    let mut app: TcpStream = match front {
+        1 => match netkit::socks5_connect(&w.socks, &SocksDest::V4(ip, port), Duration::from_secs(20)).await {
+            Ok((s, 0)) => s,
+            other => {
+                rep.inconclusive(format!("SOCKS5 connect failed: {:?}", other.map(|(_, c)| c)));
+                return;
+            }
+        },
+        _ => {
+            let Ok(mut s) = TcpStream::connect(&http).await else {
+                rep.inconclusive("cannot reach the HTTP front-end");
+                return;
+            };
+            let _ = s.write_all(format!("CONNECT {ip}:{port} HTTP/1.1\r\nHost: {ip}:{port}\r\n\r\n").as_bytes()).await;
+            let mut head = Vec::new();
+            let mut b = [0u8; 1];
+            while !head.ends_with(b"\r\n\r\n") {
+                match tokio::time::timeout(Duration::from_secs(20), s.read(&mut b)).await {
+                    Ok(Ok(1)) => head.push(b[0]),
+                    _ => break,
+                }
+            }
+            if !head.starts_with(b"HTTP/1.1 200") {
+                rep.inconclusive(format!("CONNECT failed: {}", String::from_utf8_lossy(&head)));
+                return;
+            }
+            s
+        }
+    };
+    let mut want_app = Vec::new();
+    let mut want_target = Vec::new();
+    let mut app_got = Vec::new();
+    if who_ends_first == 0 {
+        want_target.extend_from_slice(b"REQUEST");
+        for j in 0..PIECES {
+            want_app.extend_from_slice(&piece(j));
+        }
+        let _ = app.write_all(b"REQUEST").await;
+        let _ = app.shutdown().await;
+        let _ = tokio::time::timeout(Duration::from_secs(15), app.read_to_end(&mut app_got)).await;
+    } else {
+        want_app.extend_from_slice(b"HELLO");
+        // read the greeting and the target's end of stream first
+        let _ = tokio::time::timeout(Duration::from_secs(10), app.read_to_end(&mut app_got)).await;
+        for j in 0..PIECES {
+            want_target.extend_from_slice(&piece(j));
+            if app.write_all(&piece(j)).await.is_err() {
+                break;
+            }
+            tokio::time::sleep(Duration::from_millis(GAP_MS)).await;
+        }
+        let _ = app.shutdown().await;
+    }
+    let _ = tokio::time::timeout(Duration::from_secs(20), target_task).await;
+    let target_got = target_got.lock().unwrap().clone();
+    rep.add("half_closed_live_streams_watched", 1);
+    rep.add("client_level_configurations", 1);
+    let fname = if front == 1 { "socks5" } else { "http_connect" };
+    let wname = if who_ends_first == 0 { "application_half_closed_reply_running" } else { "target_half_closed_upload_running" };
+    let case = json!({"kind": "c12-client-half-closed", "front": fname, "phase": wname, "min_idle": min_idle});
+    rep.case(Some(hash_str(&case.to_string())));
+    if app_got != want_app || target_got != want_target {
+        rep.violate(
+            "pool",
+            &format!("client_level+{fname}+{wname}+min_idle{min_idle}"),
+            "live_stream_died",
+            format!("a request through the {fname} front-end whose one direction had ended kept its other direction busy for {} ms (idle_timeout 300 ms, check_interval 150 ms, min_idle {min_idle}, two older idle sessions): the application received {} of {} bytes, the target {} of {} bytes", PIECES as u64 * GAP_MS, app_got.len(), want_app.len(), target_got.len(), want_target.len()),
+            case,
+        );
+    }
+    w.client.stop_session_pool_cleanup().await;
+}
+
 pub fn run(ctx: Ctx) -> Report {
     let first = run_once(ctx);
     if first.violations.is_empty() {
@@ -469,6 +596,22 @@ pub fn run_c12_client_level(ctx: Ctx) -> Report {
         let grid: Vec<(usize, usize, usize)> = if quick { vec![(1, 0, 0), (2, 1, 1), (3, 2, 2)] } else { vec![(1, 0, 0), (1, 1, 0), (2, 0, 1), (2, 1, 1), (3, 2, 2), (6, 0, 3), (4, 1, 2), (5, 2, 1), (1, 0, 4), (2, 2, 5)] };
         for (n, min_idle, extra) in grid {
             live_streams_vs_reaper(&mut rep, n, min_idle, extra).await;
+        }
+        // the same question through the front-ends, for streams one direction of which has ended
+        let mut set = tokio::task::JoinSet::new();
+        for min_idle in if quick { vec![0usize, 1] } else { vec![0usize, 1, 2] } {
+            for front in [1u8, 2] {
+                for who in [0u8, 1] {
+                    set.spawn(async move {
+                        let mut r = Report::new("C12");
+                        half_closed_stream_vs_reaper(&mut r, min_idle, front, who).await;
+                        r
+                    });
+                }
+            }
+        }
+        while let Some(Ok(r)) = set.join_next().await {
+            rep.merge(r);
         }
         rep
     });
